@@ -62,6 +62,12 @@ where
 }
 
 pub trait EntryStoreTrait {
+    /// Give the entries their final order and positions.
+    ///
+    /// Must be done for all the entry stores of a pack before any of them is finalized:
+    /// a store may hold references to the positions of entries of another store.
+    fn sort(&mut self);
+
     fn finalize(self: Box<Self>) -> Box<dyn WritableTell>;
 }
 
@@ -71,7 +77,7 @@ where
     VN: VariantName + std::fmt::Debug + Sync + 'static,
     Entry: FullEntryTrait<PN, VN> + Send + 'static,
 {
-    fn finalize(mut self: Box<Self>) -> Box<dyn WritableTell> {
+    fn sort(&mut self) {
         set_entry_idx(&mut self.entries);
         if let Some(keys) = &self.schema.sort_keys {
             let compare = |a: &Entry, b: &Entry| a.compare(&keys, b);
@@ -92,7 +98,9 @@ where
                 }
             }
         }
+    }
 
+    fn finalize(mut self: Box<Self>) -> Box<dyn WritableTell> {
         for entry in &mut self.entries {
             self.schema.process(entry);
         }
